@@ -130,6 +130,9 @@ def gen_history(rng, sec="FOO", n_rows=None, afs=None, p_invalid=0.1, p_split=0.
                 r["ccur"], r["crate"] = currency(rng, 0.7)
             if rng.random() < p_sfl_spec:
                 r["sfl"] = (D(-rng.randint(0, 5000), 2), rng.random() < 0.5)
+                if rng.random() < 0.25:
+                    # an explicit "no superficial loss", forced or not
+                    r["sfl"] = (rng.choice([D(0), D(0, 2)]), rng.random() < 0.4)
             r["af"] = afcell
             bal[af] = held - q[1]
         else:
